@@ -376,6 +376,22 @@ fn run_session(c: &Session, ctx: &mut CaseCtx) -> Result<Result<(), String>, Lsp
                 paths_gen.set(1 - paths_gen.get());
                 srv.settings = settings_of(config_idx);
                 ctx.class("dictionary_paths_changed_without_notification");
+                // the next edit of an open document makes the server pull the new paths; words
+                // added after that belong into the new dictionaries
+                if let Some(i) = (0..4).find(|&i| open[i]) {
+                    version += 1;
+                    std::fs::write(sb.ws_file(DOCS[i].0), &texts[i]).map_err(|e| LspError::Protocol(e.to_string()))?;
+                    let uri = sb.uri(DOCS[i].0);
+                    srv.change(&uri, version, &texts[i].clone())?;
+                    known = Some(paths_gen.get());
+                    for cmd in ["HarperAddToFileDict", "HarperAddToUserDict"] {
+                        srv.execute_and_publish(cmd, json!([format!("zqword{}", saves), uri]), &uri)?;
+                        added.push((format!("zqword{}", saves), cmd == "HarperAddToUserDict", paths_gen.get()));
+                        saves += 1;
+                        commands += 1;
+                    }
+                    ctx.class("words_added_after_the_server_pulled_the_new_paths");
+                }
             }
             Step::DeleteFile { doc } => {
                 let i = *doc as usize % 4;
@@ -817,6 +833,7 @@ pub fn run(run: &mut Run) {
     run.require_class("language_server_sessions", "document_path_of_256_bytes_or_more", (n / 8) as u64);
     run.require_class("language_server_sessions", "user_dictionary_is_a_relative_symbolic_link", (n / 8) as u64);
     run.require_class("language_server_sessions", "dictionary_paths_changed_without_notification", (n / 8) as u64);
+    run.require_class("language_server_sessions", "words_added_after_the_server_pulled_the_new_paths", (n / 8) as u64);
     run_library_worker(run);
     tcp_session(run);
     tcp_busy_port_session(run);
